@@ -31,7 +31,9 @@ RefOps == {"ref_dangling", "ref_self", "ref_parent", "ref_wrong_kind", "ref_scal
 SchemaOps == {"schema_bad_pattern_example", "schema_type_empty_list", "schema_type_list", "schema_multipleof_zero_default",
               "schema_minmax_inverted_example", "schema_enum_empty", "schema_default_wrong_type", "schema_example_wrong_type",
               "schema_discriminator_empty", "schema_format_unknown_example", "schema_properties_null_entry", "schema_items_list",
-              "schema_additional_props_string", "schema_required_unknown_and_dup", "schema_allof_empty", "schema_oneof_null_member"}
+              "schema_additional_props_string", "schema_required_unknown_and_dup", "schema_allof_empty", "schema_oneof_null_member",
+              \* a component schema that is a composition of itself, with a default / example to be checked against it
+              "schema_self_allof_default", "schema_self_anyof_example", "schema_self_not_default"}
 Ops == TypeOps \cup StructOps \cup RefOps \cup SchemaOps
 
 Entries == {"data", "datapath", "file"}
